@@ -3,7 +3,7 @@ Everything is re-discovered from the stores on each run; nothing is a frozen nam
 import ast
 import re
 
-from .srcmodel import dotted, unparse, walk_no_nested, AnalysisError, names_in, stores_in
+from .srcmodel import dotted, unparse, walk_no_nested, AnalysisError, names_in, stores_in, clone_pos
 from . import own
 
 GH = 'abacusnbody/hod/GRAND_HOD.py'
@@ -30,6 +30,12 @@ class Pass2:
         self.ci = self._inner(self.count)
         self.fi = self._inner(self.fill)
         self.i_c, self.i_f = self.ci.target.id, self.fi.target.id
+        mod = src.tree(GH)
+        self.ci.body = sink_selector(inline_decision_inputs(hoist_decisions(self.ci.body), mod))
+        self.fi.body = sink_selector(self.fi.body)
+        for lp_ in (self.ci, self.fi):
+            for st_ in lp_.body:
+                st_._parent = lp_
         self._markers()
         self._decision()
         self._gstart()
@@ -211,6 +217,351 @@ class Pass2:
                 self.dicts.setdefault(s.targets[0].value.id, {})[s.targets[0].slice.value] = s.value.id
         rets = [n for n in walk_no_nested(self.fn) if isinstance(n, ast.Return)]
         self.ret = [unparse(e) for e in rets[0].value.elts] if len(rets) == 1 and isinstance(rets[0].value, ast.Tuple) else None
+
+
+def _fold(n):
+    """Constant folding of integer arithmetic, comparisons and truth tests of literals."""
+    import operator as op_
+    class F(ast.NodeTransformer):
+        def visit_BinOp(self, b):
+            b = self.generic_visit(b)
+            ops = {ast.Add: op_.add, ast.Sub: op_.sub, ast.Mult: op_.mul}
+            if isinstance(b.left, ast.Constant) and isinstance(b.right, ast.Constant) and type(b.left.value) is int and type(b.right.value) is int and type(b.op) in ops:
+                return ast.copy_location(ast.Constant(value=ops[type(b.op)](b.left.value, b.right.value)), b)
+            return b
+
+        def visit_Compare(self, c):
+            c = self.generic_visit(c)
+            ops = {ast.Gt: op_.gt, ast.GtE: op_.ge, ast.Lt: op_.lt, ast.LtE: op_.le, ast.Eq: op_.eq, ast.NotEq: op_.ne}
+            if len(c.ops) == 1 and isinstance(c.left, ast.Constant) and isinstance(c.comparators[0], ast.Constant) and type(c.ops[0]) in ops \
+                    and type(c.left.value) is int and type(c.comparators[0].value) is int:
+                return ast.copy_location(ast.Constant(value=ops[type(c.ops[0])](c.left.value, c.comparators[0].value)), c)
+            return c
+    return F().visit(n)
+
+
+def _relink(root):
+    for n_ in ast.walk(root):
+        for ch in ast.iter_child_nodes(n_):
+            ch._parent = n_
+
+
+def hoist_decisions(stmts):
+    """Normal form for a decision that is taken piecewise.  In
+
+           keep[i] = 0
+           ...; if want_A: <marker A>; if condA: <effects A>
+           ...; if want_B: <marker B>; if keep[i] == 0 and condB: <effects B>
+           ...
+
+    every tracer decides at the end of its own block, a later one only for a host that is still unclaimed.  When the effects only
+    store into Nout / keep, every effect sets keep[i] to a non-zero literal, every decision after the first has the conjunct
+    `keep[i] == 0`, nothing else reads keep / Nout, and nothing a condition reads is re-bound afterwards, this is the chain
+
+           <marker A>; <marker B>; ...
+           if want_A and condA: <effects A>  elif want_B and condB: <effects B>  ...  else: keep[i] = 0
+
+    (each decision sees the same values at the end of the iteration as where it stood, and `keep[i] == 0` holds exactly when no
+    earlier arm was taken).  Anything else is left as it is."""
+    body = list(stmts)
+    if any(isinstance(st, ast.If) and 'randoms' in unparse(st.test) for st in body):
+        return stmts           # already a top-level chain
+    d0 = [k for k, st in enumerate(body) if isinstance(st, ast.Assign) and isinstance(st.targets[0], ast.Subscript) and unparse(st.targets[0].value) == 'keep'
+          and isinstance(st.value, ast.Constant) and st.value.value == 0]
+    if len(d0) != 1:
+        return stmts
+    keep_t = unparse(body[d0[0]].targets[0])
+    arms = []       # (block index, want test, cond values, effects, decision node)
+    for k, st in enumerate(body):
+        if not (isinstance(st, ast.If) and not st.orelse and isinstance(st.test, ast.Name) and st.test.id.startswith('want_') and st.body):
+            continue
+        dec = st.body[-1]
+        if isinstance(dec, ast.If) and not dec.orelse and 'randoms' in unparse(dec.test):
+            conj = list(dec.test.values) if isinstance(dec.test, ast.BoolOp) and isinstance(dec.test.op, ast.And) else [dec.test]
+            free = [c for c in conj if unparse(c).replace(' ', '') not in (f'{keep_t}==0'.replace(' ', ''), f'0=={keep_t}'.replace(' ', ''))]
+            arms.append((k, st, conj, free, dec))
+    if len(arms) < 2 or d0[0] > arms[0][0]:
+        return stmts
+    for n_, (k, blk, conj, free, dec) in enumerate(arms):
+        if n_ > 0 and len(free) == len(conj):
+            return stmts                                   # a later decision that does not ask whether the host is still free
+        codes = [x for x in dec.body if isinstance(x, ast.Assign) and unparse(x.targets[0]) == keep_t]
+        if len(codes) != 1 or not (isinstance(codes[0].value, ast.Constant) and type(codes[0].value.value) is int and codes[0].value.value != 0):
+            return stmts
+        for x in dec.body:
+            tg = x.targets[0] if isinstance(x, ast.Assign) else (x.target if isinstance(x, ast.AugAssign) else None)
+            if not (isinstance(tg, ast.Subscript) and unparse(tg.value) in ('keep', 'Nout')):
+                return stmts
+        reads = {n.id for c in free for n in ast.walk(c) if isinstance(n, ast.Name)}
+        later = [x for kk, st in enumerate(body) if kk > k for x in ast.walk(st)] + [x for st in blk.body[blk.body.index(dec) + 1:] for x in ast.walk(st)]
+        if any(isinstance(x, ast.Name) and isinstance(x.ctx, ast.Store) and x.id in reads for x in later):
+            return stmts
+    decs = {id(a[4]) for a in arms}
+    for kk, st in enumerate(body):
+        if kk == d0[0]:
+            continue
+        for x in ast.walk(st):
+            if id(x) in decs:
+                break
+        else:
+            if any(isinstance(x, ast.Name) and x.id in ('keep', 'Nout') for x in ast.walk(st)):
+                return stmts
+        if id(st) not in {id(a[1]) for a in arms} and any(isinstance(x, ast.Name) and x.id in ('keep', 'Nout') for x in ast.walk(st)):
+            return stmts
+    for k, blk, conj, free, dec in arms:
+        rest = [x for x in blk.body[:-1] for y in ast.walk(x) if isinstance(y, ast.Name) and y.id in ('keep', 'Nout')]
+        if rest:
+            return stmts
+    # build the chain
+    chain = None
+    for k, blk, conj, free, dec in reversed(arms):
+        test = ast.BoolOp(op=ast.And(), values=[clone_pos(blk.test)] + [clone_pos(c) for c in free])
+        node = ast.If(test=ast.copy_location(test, dec.test), body=dec.body, orelse=[chain] if chain is not None else [body[d0[0]]])
+        ast.copy_location(node, dec)
+        chain = node
+    for k, blk, conj, free, dec in arms:
+        blk.body = blk.body[:-1] or [ast.copy_location(ast.Pass(), blk)]
+    out = [st for kk, st in enumerate(body) if kk != d0[0]] + [chain]
+    ast.fix_missing_locations(chain)
+    _relink(chain)
+    for st in out:
+        for ch in ast.iter_child_nodes(st):
+            ch._parent = st
+    return out
+
+
+def inline_decision_inputs(stmts, mod):
+    """Normal form for the tests of the decision chain (the if/elif chain whose tests read `randoms`): whatever the tests read through
+    a name or a helper is put back in place, so that the chain shows its own conditions.
+
+      r = randoms[i]                       a value named once in this iteration and not changed afterwards      -> its expression
+      in_slice(want, lo, hi, r)            a module-level helper that only returns an expression of its arguments -> that expression
+      has_X = False                        a flag that is False unless the block `if want_X:` ran, which sets it
+      if want_X: ...; has_X = E            once, as its last word on the flag                                    -> (want_X and E)
+
+    Each replacement is exact (same values in every execution) provided nothing the replaced expression reads is re-bound between
+    the definition and the test, which is checked.  The statements that only served the replaced names are removed."""
+    body = list(stmts)
+    chain_idx = [j for j, st in enumerate(body) if isinstance(st, ast.If) and 'randoms' in unparse(st.test) or
+                 (isinstance(st, ast.If) and any(isinstance(c, ast.Call) and isinstance(c.func, ast.Name) for c in ast.walk(st.test))
+                  and any(isinstance(x, ast.Assign) and isinstance(x.targets[0], ast.Subscript) and unparse(x.targets[0].value) == 'keep' for x in st.body))]
+    # the chain is the LAST top-level if of the iteration that stores keep[...] in its first arm
+    cands = [j for j, st in enumerate(body) if isinstance(st, ast.If) and
+             any(isinstance(x, ast.Assign) and isinstance(x.targets[0], ast.Subscript) and unparse(x.targets[0].value) == 'keep' for x in st.body)]
+    if not cands:
+        return stmts
+    j = cands[-1]
+    chain = body[j]
+    helpers = {}
+    for f in mod.body:
+        if isinstance(f, ast.FunctionDef):
+            inner = [b for b in f.body if not (isinstance(b, ast.Expr) and isinstance(b.value, ast.Constant))]
+            a = f.args
+            if len(inner) == 1 and isinstance(inner[0], ast.Return) and inner[0].value is not None and not (a.vararg or a.kwarg or a.kwonlyargs or a.defaults):
+                params = [x.arg for x in a.args]
+                free = {n.id for n in ast.walk(inner[0].value) if isinstance(n, ast.Name)} - set(params)
+                if not free and not any(isinstance(n, (ast.Call, ast.Subscript, ast.Attribute)) for n in ast.walk(inner[0].value)):
+                    helpers[f.name] = (params, inner[0].value)
+
+    def stored_between(names, lo, hi):
+        for st in body[lo:hi]:
+            for n in ast.walk(st):
+                if isinstance(n, ast.Name) and isinstance(n.ctx, ast.Store) and n.id in names:
+                    return True
+        return False
+
+    def count_stores(name):
+        return sum(1 for st in body for n in ast.walk(st) if isinstance(n, ast.Name) and n.id == name and isinstance(n.ctx, ast.Store))
+
+    # flags and plain names
+    subst, drop = {}, []
+    tests = []
+    c = chain
+    while True:
+        tests.append(c)
+        if len(c.orelse) == 1 and isinstance(c.orelse[0], ast.If):
+            c = c.orelse[0]
+        else:
+            break
+    read = {n.id for t in tests for n in ast.walk(t.test) if isinstance(n, ast.Name)}
+    for name in sorted(read):
+        tops = [(k, st) for k, st in enumerate(body[:j]) if isinstance(st, ast.Assign) and len(st.targets) == 1 and isinstance(st.targets[0], ast.Name) and st.targets[0].id == name]
+        ns = count_stores(name)
+        if len(tops) == 1 and ns == 1:
+            k, st = tops[0]
+            if name.endswith('_marker') or name.startswith('want_'):
+                continue
+            reads = {n.id for n in ast.walk(st.value) if isinstance(n, ast.Name)}
+            if not stored_between(reads, k + 1, j) and not any(isinstance(n, ast.Call) for n in ast.walk(st.value)):
+                subst[name] = st.value
+                drop.append(st)
+        elif len(tops) == 1 and ns == 2 and isinstance(tops[0][1].value, ast.Constant) and tops[0][1].value.value is False:
+            k, st0 = tops[0]
+            for kk in range(k + 1, j):
+                blk = body[kk]
+                if isinstance(blk, ast.If) and not blk.orelse and blk.body and isinstance(blk.body[-1], ast.Assign) and len(blk.body[-1].targets) == 1 \
+                        and isinstance(blk.body[-1].targets[0], ast.Name) and blk.body[-1].targets[0].id == name:
+                    e = blk.body[-1].value
+                    reads = {n.id for n in ast.walk(e) if isinstance(n, ast.Name)}
+                    if not stored_between(reads, kk + 1, j) and not any(isinstance(n, ast.Call) for n in ast.walk(e)) \
+                            and not any(isinstance(n, ast.Name) and n.id == name for x in blk.body[:-1] for n in ast.walk(x)):
+                        subst[name] = ast.BoolOp(op=ast.And(), values=[clone_pos(blk.test), clone_pos(e)])
+                        drop.append(st0)
+                        drop.append(blk.body[-1])
+                    break
+    used_elsewhere = set()
+    for st in body[:j] + body[j + 1:]:
+        for n in ast.walk(st):
+            if isinstance(n, ast.Name) and isinstance(n.ctx, ast.Load) and n.id in subst:
+                used_elsewhere.add(n.id)
+    for st in chain.body + [x for t in tests for x in t.body] + tests[-1].orelse:
+        for n in ast.walk(st):
+            if isinstance(n, ast.Name) and isinstance(n.ctx, ast.Load) and n.id in subst:
+                used_elsewhere.add(n.id)
+
+    class S(ast.NodeTransformer):
+        def visit_Name(self, n):
+            if isinstance(n.ctx, ast.Load) and n.id in subst:
+                return ast.copy_location(clone_pos(subst[n.id]), n)
+            return n
+
+        def visit_Call(self, n):
+            n = self.generic_visit(n)
+            if isinstance(n.func, ast.Name) and n.func.id in helpers and not n.keywords and len(n.args) == len(helpers[n.func.id][0]):
+                ps, e = helpers[n.func.id]
+                m = dict(zip(ps, n.args))
+
+                class P(ast.NodeTransformer):
+                    def visit_Name(s_, x):
+                        return clone_pos(m[x.id]) if x.id in m and isinstance(x.ctx, ast.Load) else x
+                return ast.copy_location(P().visit(clone_pos(e)), n)
+            return n
+
+    def flatten(t):
+        if isinstance(t, ast.BoolOp):
+            vals = []
+            for v in t.values:
+                v = flatten(v)
+                if isinstance(v, ast.BoolOp) and type(v.op) is type(t.op):
+                    vals.extend(v.values)
+                else:
+                    vals.append(v)
+            t.values = vals
+        return t
+    changed = False
+    for t in tests:
+        before = unparse(t.test)
+        t.test = flatten(S().visit(t.test))
+        ast.fix_missing_locations(t.test)
+        changed = changed or unparse(t.test) != before
+    if not changed:
+        return stmts
+    gone = [d for d in drop if (d.targets[0].id not in used_elsewhere)]
+    out = []
+    for st in body:
+        if any(st is d for d in gone):
+            continue
+        if isinstance(st, ast.If):
+            st.body = [x for x in st.body if not any(x is d for d in gone)] or [ast.copy_location(ast.Pass(), st)]
+        out.append(st)
+    _relink(chain)
+    for st in out:
+        for ch in ast.iter_child_nodes(st):
+            ch._parent = st
+    return out
+
+
+def sink_selector(stmts):
+    """Normal form for a decision that is taken in two steps.  In
+
+           sel = c0
+           if A: sel = c1
+           elif B: sel = c2
+           ...
+           <statements reading sel>          (sel not read afterwards)
+
+    the statements reading `sel` are moved into every branch with the branch's constant substituted and folded
+    (`if 2 > 0:` disappears, `sel - 1` becomes 1), which gives the one-step chain  if A: <effects of c1> elif B: ... else: <effects of c0>.
+    The transformation is exact: every execution performs the same statements with the same values in the same order."""
+    import copy
+    for j, C in enumerate(stmts):
+        if not isinstance(C, ast.If):
+            continue
+        arms, c, sel, has_else = [], C, None, False
+        ok = True
+        while ok:
+            if len(c.body) == 1 and isinstance(c.body[0], ast.Assign) and len(c.body[0].targets) == 1 and isinstance(c.body[0].targets[0], ast.Name) \
+                    and isinstance(c.body[0].value, ast.Constant) and type(c.body[0].value.value) is int and sel in (None, c.body[0].targets[0].id):
+                sel = c.body[0].targets[0].id
+                arms.append((c, c.body[0].value.value))
+            else:
+                ok = False
+                break
+            if len(c.orelse) == 1 and isinstance(c.orelse[0], ast.If):
+                c = c.orelse[0]
+                continue
+            if c.orelse:
+                e = c.orelse
+                if len(e) == 1 and isinstance(e[0], ast.Assign) and len(e[0].targets) == 1 and isinstance(e[0].targets[0], ast.Name) and e[0].targets[0].id == sel \
+                        and isinstance(e[0].value, ast.Constant) and type(e[0].value.value) is int:
+                    has_else = True
+                    else_val = e[0].value.value
+                else:
+                    ok = False
+            break
+        if not ok or sel is None or len(arms) < 2:
+            continue
+        last = arms[-1][0]
+        # the initial value: the closest earlier statement of this block binding sel, a literal; nothing else stores sel before the chain
+        inits = [i for i, st in enumerate(stmts[:j]) if sel in stores_in(st)]
+        if has_else:
+            init_idx = None
+            if inits:
+                continue
+        else:
+            if len(inits) != 1:
+                continue
+            st0 = stmts[inits[0]]
+            if not (isinstance(st0, ast.Assign) and len(st0.targets) == 1 and isinstance(st0.targets[0], ast.Name) and isinstance(st0.value, ast.Constant)
+                    and type(st0.value.value) is int):
+                continue
+            init_idx, else_val = inits[0], st0.value.value
+            if any(sel in names_in(st) for st in stmts[init_idx + 1:j]):
+                continue
+        # the run of statements after the chain that read sel; sel must be dead after it and not be stored in it
+        k = j + 1
+        while k < len(stmts) and sel in names_in(stmts[k]) and sel not in stores_in(stmts[k]):
+            k += 1
+        run = stmts[j + 1:k]
+        if not run or any(sel in names_in(st) for st in stmts[k:]):
+            continue
+
+        def inst(val):
+            out = []
+            for st in run:
+                class S(ast.NodeTransformer):
+                    def visit_Name(self, n):
+                        return ast.copy_location(ast.Constant(value=val), n) if n.id == sel and isinstance(n.ctx, ast.Load) else n
+                t = _fold(S().visit(clone_pos(st)))
+                if isinstance(t, ast.If) and isinstance(t.test, ast.Constant):
+                    out.extend(t.body if t.test.value else t.orelse)
+                else:
+                    out.append(t)
+            return out or [ast.copy_location(ast.Pass(), run[0])]
+        for node, val in arms:
+            node.body = inst(val)
+        last.orelse = inst(else_val)
+        new = stmts[:j + 1] + stmts[k:]
+        if init_idx is not None:
+            del new[init_idx]
+        for st in new:
+            ast.fix_missing_locations(st)
+        # the moved copies take part in the source model like any other statement (parent links)
+        for n_ in ast.walk(C):
+            for ch in ast.iter_child_nodes(n_):
+                ch._parent = n_
+        return sink_selector(new)
+    return stmts
 
 
 def tracer_of(name):
